@@ -10,8 +10,10 @@ from sa.util import U, Env, call_is, const_value, writes_of
 from rules import wiring
 
 EXPLANATION = (
-    "C07: the numerical clauses (edges equal numpy's, pretty widths, quantiles, geometric sequences, coverage) are "
-    "NOT decided. Decided: every binning class's __init__ reaches BinningBase.__init__ on all paths, explicit edges "
+    "C07: floating-point conformance is not decided, but the closed formulas are compared with a table in exact arithmetic: "
+    "the bin-count rules (sqrt, sturges, rice, doane), the pretty-width candidates / decade / nearest choice, numpy_binning's "
+    "linspace over the extent (and its narrow-range fallback keeps the first edge), quantile edges = np.percentile of evenly "
+    "spaced quantiles, exponential parameters and the geometric edge formula. Also decided: every binning class's __init__ reaches BinningBase.__init__ on all paths, explicit edges "
     "go through the validated `bins=` / `numpy_bins=` parameters whose branches refuse non-rising input (is_rising "
     "compares left >= right and next-left < previous-right), edge generators refuse non-positive widths / negative "
     "counts, make_bin_array refuses wrong shapes; every *_binning factory is registered under its name, "
@@ -22,8 +24,8 @@ EXPLANATION = (
     "bin_count, 0..bin_count; copy() forwards every state-determining constructor parameter; cached edge arrays are "
     "never modified in place."
 )
-NOT_DECIDED = ("conformance of the generated edges to numpy / pretty-width / quantile / geometric rules, coverage of the "
-               "data (floating-point: see C04), tolerance choices of is_regular / is_consecutive.")
+NOT_DECIDED = ("floating-point conformance of the generated edges (rounding of linspace / percentile / 10**x), coverage of the "
+               "data under rounding (see C04), tolerance choices of is_regular / is_consecutive, the astropy-based factories.")
 TRUSTED = ["np.linspace / np.percentile / np.allclose"]
 
 EXPECTED_KEYS = {"numpy_binning": "numpy", "pretty_binning": "pretty", "quantile_binning": "quantile", "static_binning": "static",
@@ -114,6 +116,199 @@ def check_pretty_factory(ctx, rule, m):
     oki = "tuple((r - 0.5 for r in kwargs['range']))" in ti and "bin_shift=0.5" in ti and "align=True" in ti and "bin_width=kwargs.pop('bin_width', 1)" in ti
     ctx.check(oki, rule, "integer_binning:grid", "bins centred on integers: range shifted by -0.5, shift 0.5, width 1 by default",
               "integer_binning no longer builds the half-integer grid", ib.where)
+
+
+def check_pretty_width(ctx, rule, m):
+    """find_pretty_width_decimal: candidates {1, 2, 2.5, 5} * 10^k over one decade and its two neighbours, k = floor(log10(raw)),
+    the candidate nearest to raw (in ratio or difference) is returned; find_pretty_width dispatches to it by default."""
+    bu = m.module("_bin_utils")
+    fd = bu.functions["find_pretty_width_decimal"]
+    ctx.saw(fd)
+    raw = fd.params()[0]
+    defs = {U(n.targets[0]): n.value for n in ast.walk(fd.node) if isinstance(n, ast.Assign)}
+    sub = defs.get("subscales")
+    vals = None
+    if isinstance(sub, ast.Call) and sub.args and isinstance(sub.args[0], (ast.List, ast.Tuple)):
+        vals = [const_value(e) for e in sub.args[0].elts]
+    ctx.check(vals is not None and sorted(vals) == [0.5, 1, 2, 2.5, 5, 10], rule, "find_pretty_width_decimal:candidates",
+              "mantissas {1, 2, 2.5, 5} plus the neighbouring decades' 0.5 and 10", f"candidate mantissas are {vals}", fd.where)
+    pw = defs.get("power")
+    tp = U(pw).replace(".astype(int)", "") if pw is not None else ""
+    ctx.check(tp in (f"np.floor(np.log10({raw}))", f"int(np.floor(np.log10({raw})))", f"math.floor(math.log10({raw}))"), rule,
+              "find_pretty_width_decimal:decade", "decade = floor(log10(raw width))", f"power = `{U(pw) if pw is not None else None}`", fd.where)
+    bi = defs.get("best_index")
+    okb = False
+    if isinstance(bi, ast.Call) and call_is(bi, "argmin") and bi.args:
+        inner = bi.args[0]
+        if isinstance(inner, ast.Call) and call_is(inner, "abs", "absolute") and inner.args:
+            d = inner.args[0]
+            cand = "subscales * 10.0 ** power"
+            t = U(d)
+            okb = t in (f"np.log({cand} / {raw})", f"np.log({raw} / ({cand}))", f"{cand} - {raw}", f"{raw} - {cand}",
+                        f"np.log10({cand} / {raw})", f"np.log({cand}) - np.log({raw})")
+    ctx.check(okb, rule, "find_pretty_width_decimal:nearest", "index of the candidate nearest to the raw width (argmin of |log ratio|)",
+              f"best_index = `{U(bi) if bi is not None else None}`", fd.where)
+    rets = [U(n.value) for n in ast.walk(fd.node) if isinstance(n, ast.Return)]
+    ctx.check(rets in (["10.0 ** power * subscales[best_index]"], ["subscales[best_index] * 10.0 ** power"]), rule,
+              "find_pretty_width_decimal:returns", "the chosen candidate itself", f"returns {rets}", fd.where)
+    fp = bu.functions["find_pretty_width"]
+    ctx.saw(fp)
+    first = None
+    for path in function_paths(fp.node):
+        cs = [(U(s_[1]), s_[2]) for s_ in path if s_[0] == "cond"]
+        if cs and cs[0] == ("not kind", True) or cs and cs[0] == ("kind", False):
+            first = U(path[-1][2].value) if end_kind(path) == "return" else None
+    ctx.check(first == f"find_pretty_width_decimal({fp.params()[0]})", rule, "find_pretty_width:default",
+              "without a kind the decimal rule is applied to the raw width itself", f"default branch returns `{first}`", fp.where)
+
+
+def check_numpy_binning_coverage(ctx, rule, m):
+    """numpy_binning: the edges returned start at range[0] / data.min() and end at range[1] / data.max() (np.linspace), and a
+    later re-binding of the edges (the narrow-range fallback) keeps the first edge."""
+    nb = m.func("binnings", "numpy_binning")
+    ctx.saw(nb)
+    n = 0
+    probs = []
+    for path in function_paths(nb.node):
+        if end_kind(path) != "return" or not consistent(path):
+            continue
+        n += 1
+        env = Env()
+        first = last = None
+        for s_ in path:
+            if s_[0] == "stmt" and isinstance(s_[1], ast.Assign) and U(s_[1].targets[0]) == "edges":
+                v = s_[1].value
+                if isinstance(v, ast.Call) and call_is(v, "linspace") and len(v.args) >= 2:
+                    first, last = U(env.expand(v.args[0])), U(env.expand(v.args[1]))
+                else:
+                    # re-binding: [<old first>] + [...]  keeps the first edge; a sequence generated from scratch does not
+                    inner = v.args[0] if isinstance(v, ast.Call) and call_is(v, "array", "asarray") and v.args else v
+                    lead = None
+                    if isinstance(inner, ast.BinOp) and isinstance(inner.op, ast.Add) and isinstance(inner.left, ast.List) and inner.left.elts:
+                        l0 = inner.left.elts[0]
+                        d0 = env.resolve(l0) if isinstance(l0, ast.Name) else l0
+                        lead = U(d0) if isinstance(d0, ast.AST) else U(l0)
+                    if lead in ("edges[0]", first):
+                        last = None if last is None else f">= {last} (successive floats)"
+                    elif isinstance(inner, (ast.ListComp, ast.GeneratorExp)) or lead is not None:
+                        probs.append(f"`{U(s_[1])[:80]}` replaces the edges by a sequence that does not start at the old first edge "
+                                     f"({first}): the minimum falls below the first bin")
+                        first = None
+                    else:
+                        first = last = None   # not decided
+            env.step(s_)
+        ret = path[-1][2].value
+        if not (isinstance(ret, ast.Call) and U(ret.func) == "NumpyBinning" and ret.args and U(ret.args[0]) == "edges"):
+            probs.append(f"returns `{U(ret)[:60]}`")
+        rng = any(U(s_[1]) == "range" and s_[2] for s_ in path if s_[0] == "cond")
+        want = ("range[0]", "range[1]") if rng else ("data.min()", "data.max()")
+        if first is not None and first != want[0]:
+            probs.append(f"first edge is {first}, expected {want[0]}")
+        if last is not None and not last.startswith(">=") and last != want[1]:
+            probs.append(f"last edge is {last}, expected {want[1]}")
+    ctx.check(n >= 2 and not probs, rule, "numpy_binning:covers-extent", f"{n} returning paths: edges run from the minimum / range start to the "
+              "maximum / range end", "; ".join(sorted(set(probs))[:2]), nb.where)
+
+
+def check_rule_factories(ctx, rule, m):
+    """quantile_binning: edges = np.percentile(data, 100 * (qrange[0] .. qrange[1] in bin_count steps | q));
+    exponential_binning / ExponentialBinning: edges = 10 ** (log10(lo) + k * (log10(hi) - log10(lo)) / bin_count)."""
+    from sa.symbolic import RatCtx, to_rat, rat_eq
+    qb = m.func("binnings", "quantile_binning")
+    ctx.saw(qb)
+    defs = {}
+    for n in ast.walk(qb.node):
+        if isinstance(n, ast.Assign):
+            defs.setdefault(U(n.targets[0]), []).append(n.value)
+    pc = [U(v) for v in defs.get("percentiles", [])]
+    okp = sorted(pc) == sorted(["np.linspace(qrange[0] * 100, qrange[1] * 100, bin_count + 1)", "np.asarray(q) * 100.0"])
+    okb = [U(v) for v in defs.get("bins", [])] == ["np.percentile(data, percentiles)"]
+    okd = any(U(v) == "(0.0, 1.0)" for v in defs.get("qrange", []))
+    rets = [n.value for n in ast.walk(qb.node) if isinstance(n, ast.Return)]
+    okr = len(rets) == 1 and isinstance(rets[0], ast.Call) and U(rets[0].func) == "static_binning" and \
+        U(kwarg(rets[0], "bins")) in ("make_bin_array(bins)", "bins") and U(kwarg(rets[0], "includes_right_edge")) == "True"
+    ctx.check(okp and okb and okd and okr, rule, "quantile_binning:edges",
+              "edges = np.percentile(data, percentiles) for bin_count + 1 evenly spaced quantiles of qrange (default 0..1) or the given q; "
+              "right edge included (the maximum is the last quantile)",
+              f"percentiles: {pc}; bins: {[U(v) for v in defs.get('bins', [])]}; default qrange ok: {okd}; return ok: {okr}", qb.where)
+    eb = m.func("binnings", "exponential_binning")
+    ctx.saw(eb)
+    n_ok, why = 0, []
+    for path in function_paths(eb.node):
+        if end_kind(path) != "return" or not consistent(path):
+            continue
+        env = Env()
+        for s_ in path:
+            env.step(s_)
+        ret = path[-1][2].value
+        if not (isinstance(ret, ast.Call) and U(ret.func) == "ExponentialBinning"):
+            why.append(f"returns {U(ret)[:50]}")
+            continue
+        rng = any(U(s_[1]) == "range" and s_[2] for s_ in path if s_[0] == "cond")
+        lo, hi = ("range[0]", "range[1]") if rng else ("data.min()", "data.max()")
+        rc = RatCtx()
+
+        def leaf(n):
+            t = U(n)
+            if t == lo:
+                return Poly.sym("lo")
+            if t == hi:
+                return Poly.sym("hi")
+            if t == "bin_count":
+                return Poly.sym("n")
+            return None
+        # the parameter `range` is re-bound to the pair of logarithms: expand through the reaching definitions
+        lm = env.expand(kwarg(ret, "log_min"), keep={"bin_count", "data"}) if kwarg(ret, "log_min") is not None else None
+        lw = env.expand(kwarg(ret, "log_width"), keep={"bin_count", "data"}) if kwarg(ret, "log_width") is not None else None
+
+        def sel(e):
+            # (a, b)[i] -> a / b
+            class T(ast.NodeTransformer):
+                def visit_Subscript(self, node):
+                    self.generic_visit(node)
+                    if isinstance(node.value, ast.Tuple) and isinstance(node.slice, ast.Constant) and isinstance(node.slice.value, int) \
+                            and node.slice.value < len(node.value.elts):
+                        return node.value.elts[node.slice.value]
+                    return node
+            import copy as _c
+            return T().visit(_c.deepcopy(e)) if e is not None else None
+        rdef = [s_[1].value for s_ in path if s_[0] == "stmt" and isinstance(s_[1], ast.Assign) and U(s_[1].targets[0]) == "range"
+                and isinstance(s_[1].value, ast.Tuple)]
+
+        def unbind(e):
+            # `range = (log10(range[0]), log10(range[1]))` re-binds the parameter: read range[i] after it as the i-th element
+            if e is None or not rdef:
+                return e
+            import copy as _c
+
+            class R(ast.NodeTransformer):
+                def visit_Subscript(self, node):
+                    if U(node.value) == "range" and isinstance(node.slice, ast.Constant) and node.slice.value in (0, 1):
+                        return _c.deepcopy(rdef[-1].elts[node.slice.value])
+                    return self.generic_visit(node)
+            return R().visit(_c.deepcopy(e))
+        lm, lw = unbind(sel(lm)), unbind(sel(lw))
+        g_min = to_rat(lm, leaf, rc) if lm is not None else None
+        g_w = to_rat(lw, leaf, rc) if lw is not None else None
+        w_min = to_rat(ast.parse("log10(lo)", mode="eval").body, lambda n: Poly.sym(n.id) if isinstance(n, ast.Name) and n.id in ("lo", "hi", "n") else None, rc)
+        w_w = to_rat(ast.parse("(log10(hi) - log10(lo)) / n", mode="eval").body,
+                     lambda n: Poly.sym(n.id) if isinstance(n, ast.Name) and n.id in ("lo", "hi", "n") else None, rc)
+        if rat_eq(g_min, w_min) and rat_eq(g_w, w_w) and U(kwarg(ret, "bin_count")) == "bin_count":
+            n_ok += 1
+        else:
+            why.append(f"{'range' if rng else 'data'} path: log_min = `{U(lm) if lm is not None else None}`, log_width = `{U(lw) if lw is not None else None}`")
+    ctx.check(n_ok >= 2 and not why, rule, "exponential_binning:parameters",
+              "log_min = log10(lower end), log_width = (log10(upper) - log10(lower)) / bin_count, for the range or the data extent",
+              "; ".join(sorted(set(why))[:2]) or f"only {n_ok} path(s)", eb.where)
+    EB = m.cls("ExponentialBinning")
+    g = EB.getters["numpy_bins"]
+    ctx.saw(g)
+    d2 = {U(n.targets[0]): U(n.value) for n in ast.walk(g.node) if isinstance(n, ast.Assign)}
+    okg = d2.get("log_bins") in ("self._log_min + np.arange(self._bin_count + 1) * self._log_width",
+                                 "np.arange(self._bin_count + 1) * self._log_width + self._log_min") and \
+        d2.get("self._numpy_bins") in ("10.0 ** log_bins", "10 ** log_bins", "np.power(10.0, log_bins)")
+    ctx.check(okg, rule, "ExponentialBinning.numpy_bins:geometric", "edges = 10 ** (log_min + k * log_width), k = 0..bin_count",
+              f"numpy_bins is built as {d2}", g.where)
 
 
 def check_edge_formula(ctx, rule, m):
@@ -331,6 +526,9 @@ def run(ctx):
     ctx.check(branches == listed and tail_raise and len(listed) >= 5, "C07.b", "bincount_methods", f"{sorted(listed)} == branches of ideal_bin_count; unknown -> ValueError",
               f"bincount_methods {sorted(listed)} != branches {sorted(branches)} (or the unknown-method raise is gone)", ibc.where)
     check_bin_count_rules(ctx, "C07.b", m)
+    check_numpy_binning_coverage(ctx, "C07.b", m)
+    check_rule_factories(ctx, "C07.b", m)
+    check_pretty_width(ctx, "C07.b", m)
     cb = m.func("_construction", "calculate_1d_bins")
     ctx.saw(cb)
     unassigned = 0
